@@ -44,6 +44,39 @@ def gate(ctx, idx, rule, fi, err, protected, con_suffix, test_ok=None, what=""):
     return rz
 
 
+def _own_prepass_before(f_, start, origin):
+    """In the statement list that holds the loop starting the commands, an earlier statement is
+         for c in <origin>:  for a in c.arguments:  [if a.name in c.inputs:]  c.inputs[a.name].clean(a.value, ...)
+    with nothing else in it (no break / continue / return / other statement): every declared argument of every command of the
+    same table has been cleaned - and any fault raised - before the first command is started."""
+    def blocks(node):
+        for x in ast.walk(node):
+            for fld in ("body", "orelse", "finalbody"):
+                b = getattr(x, fld, None)
+                if isinstance(b, list) and b and isinstance(b[0], ast.stmt):
+                    yield b
+
+    for b in blocks(f_.node):
+        pos = next((i for i, st in enumerate(b) if any(start is y for y in ast.walk(st))), None)
+        if pos is None or not isinstance(b[pos], ast.For):
+            continue
+        for st in b[:pos]:
+            if not (isinstance(st, ast.For) and K.src(st.iter) == origin and isinstance(st.target, ast.Name) and not st.orelse and len(st.body) == 1):
+                continue
+            c = st.target.id
+            inner = st.body[0]
+            if not (isinstance(inner, ast.For) and K.src(inner.iter) == "%s.arguments" % c and isinstance(inner.target, ast.Name) and not inner.orelse and len(inner.body) == 1):
+                continue
+            a = inner.target.id
+            leaf = inner.body[0]
+            if isinstance(leaf, ast.If) and not leaf.orelse and len(leaf.body) == 1 and K.src(leaf.test) == "%s.name in %s.inputs" % (a, c):
+                leaf = leaf.body[0]
+            if isinstance(leaf, ast.Expr) and isinstance(leaf.value, ast.Call) and isinstance(leaf.value.func, ast.Attribute) and leaf.value.func.attr == "clean" \
+                    and K.src(leaf.value.func.value) == "%s.inputs[%s.name]" % (c, a) and leaf.value.args and K.src(leaf.value.args[0]) == "%s.value" % a:
+                return True
+    return False
+
+
 def run(ctx, idx):
     A = K.anchors(idx)
     prog = A.program
@@ -317,6 +350,10 @@ def run(ctx, idx):
             for lp_ in ast.walk(f_.node):
                 if isinstance(lp_, (ast.For, ast.comprehension)) and any(isinstance(t_, ast.Name) and t_.id == recv.id for t_ in ast.walk(lp_.target)):
                     origin = K.src(lp_.iter)
+        if ".commands" in origin and _own_prepass_before(f_, n_, origin):
+            n_other += 1
+            ctx.hold("C12.b", "%s::starts-commands-itself" % K.where(mod_, f_), mod_.rel, n_.lineno, "the commands are started one by one after a loop of this function's own that cleans every declared argument of every command of the same table (the pre-pass Program.run makes)")
+            continue
         if ".commands" in origin:
             n_other += 1
             ctx.violate("C12.b", "%s::starts-commands-itself" % K.where(mod_, f_), mod_.rel, n_.lineno, "`%s` starts commands of the table one by one (receiver from `%s`) instead of calling Program.run: the validation pre-pass never happens, so a faulty command listed after a writer is rejected only after the writer has run and written its output" % (K.src(n_)[:50], origin[:50]))
